@@ -270,7 +270,7 @@ func (p *ShadowsocksNonePacketServerUnpacker) UnpackInPlace(b []byte, sourceAddr
 }
 
 // NewPacker implements the zerocopy.ServerUnpacker NewPacker method.
-func (ShadowsocksNonePacketServerUnpacker) NewPacker() (zerocopy.ServerPacker, error) {
+func (*ShadowsocksNonePacketServerUnpacker) NewPacker() (zerocopy.ServerPacker, error) {
 	return ShadowsocksNonePacketServerPacker{}, nil
 }
 
@@ -427,6 +427,6 @@ func (p *Socks5PacketServerUnpacker) UnpackInPlace(b []byte, sourceAddrPort neti
 }
 
 // NewPacker implements the zerocopy.ServerUnpacker NewPacker method.
-func (Socks5PacketServerUnpacker) NewPacker() (zerocopy.ServerPacker, error) {
+func (*Socks5PacketServerUnpacker) NewPacker() (zerocopy.ServerPacker, error) {
 	return Socks5PacketServerPacker{}, nil
 }
